@@ -3,12 +3,43 @@ import Hifi.Lemmas.EpochOrd
   C12  Epoch equality and ordering are chronological, whatever the time scales.
 
   Proved for the seven non-dynamical scales (TAI, TT, UTC, GPST, GST, BDT, QZSST), for every pair of
-  epochs at least four centuries inside the duration bounds (`Safe`, so that no conversion saturates).
+  epochs for which the ONE conversion the comparison performs does not saturate (`CmpFits`, built from
+  `ConvFits`: the TAI count of the converted operand and its value in the other scale are representable —
+  no margin; `saturation_counterexample` shows that this hypothesis cannot be dropped).  The earlier
+  statements under `Safe` (four centuries of margin) are kept as corollaries.
+  "Instant" is `Spec.instant` (`inst_eq_spec`).
   ET/TDB operands go through `f64::sin`; for them the property's 100 ns statement rests on C07 and on
   the correspondence run.
 -/
 namespace Hifi.C12
 open Hifi Hifi.Spec Hifi.C06
+
+/-! ### what "instant" means: tie of the lemmas' vocabulary to the independent specification -/
+
+/-- the model-level offsets `off` (read off the generated constants of the sources) are the ones the
+    specification states from the calendar (`Spec.scaleOff`), for the seven non-dynamical scales -/
+theorem off_eq_spec (ts : TS) (h : ts.nonDyn = true) : scaleOff ts.name = some (off ts) := by
+  cases ts <;> first | (exact absurd h (by decide)) | decide
+
+/-- `Ep.inst` / `instV` (`Lemmas/EpochOrd.lean`, built from the model's constants and the built-in table) IS
+    the instant the independent specification assigns (`Spec.instant`: calendar offsets of `Spec/Epoch.lean`
+    and the step function of the raw IERS file), for every epoch of a non-dynamical scale.  All theorems of
+    C12 and C04 that mention `inst` are therefore statements about `Spec.instant`. -/
+theorem inst_eq_spec (e : Ep) (h : e.ts.nonDyn = true) :
+    Spec.instant iersTbl e.ts.name e.dur.val = some e.inst := by
+  obtain ⟨d, ts⟩ := e
+  simp only at h
+  unfold Ep.inst instV Spec.instant
+  simp only
+  by_cases hu : ts = .UTC
+  · subst hu
+    rw [if_pos rfl, if_pos (by decide), builtin_L_eq_spec]; rfl
+  · have hn : ¬ (ts.name = "UTC") := by cases ts <;> first | (exact absurd rfl hu) | decide
+    rw [if_neg hu, if_neg hn, off_eq_spec ts h]
+
+/-- the dynamical scales have no `Spec.instant` (they go through `f64::sin`: C07) -/
+theorem inst_spec_none_dynamical (v : Int) : Spec.instant iersTbl "ET" v = none ∧ Spec.instant iersTbl "TDB" v = none := by
+  constructor <;> rfl
 
 /-- `cmp` answers the chronological question about the instants denoted -/
 theorem cmp_is_chronological (a b : Ep) (ha : a.dur.Canon) (hb : b.dur.Canon)
@@ -75,6 +106,116 @@ theorem min_max_spec (a b : Ep) (ha : a.dur.Canon) (hb : b.dur.Canon)
   rw [Ep_cmp_spec a b ha hb hta htb hsa hsb]
   simp only
   refine ⟨_, _, rfl, rfl, ?_, ?_⟩ <;> (unfold cmpI; grind)
+
+/-! ### the same under the weakest hypothesis: "no conversion saturates" (`CmpFits` / `ConvFits`, no margin) -/
+
+/-- `cmp` answers the chronological question about the instants denoted -/
+theorem cmp_is_chronological_nosat (a b : Ep) (ha : a.dur.Canon) (hb : b.dur.Canon)
+    (hta : a.ts.nonDyn = true) (htb : b.ts.nonDyn = true) (hf : CmpFits a b) :
+    Ep.cmp a b = some (cmpI a.inst b.inst) := Ep_cmp_spec_nosat a b ha hb hta htb hf
+
+/-- `==` holds exactly when both denote the same instant -/
+theorem eq_iff_same_instant_nosat (a b : Ep) (ha : a.dur.Canon) (hb : b.dur.Canon)
+    (hta : a.ts.nonDyn = true) (htb : b.ts.nonDyn = true) (hf : CmpFits a b) :
+    Ep.eqb a b = some (decide (a.inst = b.inst)) := Ep_eqb_spec_nosat a b ha hb hta htb hf
+
+/-- in the vocabulary of the independent specification: `cmp` is the order of `Spec.instant` -/
+theorem cmp_is_spec_order (a b : Ep) (ha : a.dur.Canon) (hb : b.dur.Canon)
+    (hta : a.ts.nonDyn = true) (htb : b.ts.nonDyn = true) (hf : CmpFits a b) :
+    ∃ ia ib, Spec.instant iersTbl a.ts.name a.dur.val = some ia ∧ Spec.instant iersTbl b.ts.name b.dur.val = some ib ∧
+      Ep.cmp a b = some (cmpI ia ib) ∧ Ep.eqb a b = some (decide (ia = ib)) :=
+  ⟨_, _, inst_eq_spec a hta, inst_eq_spec b htb, Ep_cmp_spec_nosat a b ha hb hta htb hf,
+    Ep_eqb_spec_nosat a b ha hb hta htb hf⟩
+
+/-- equality and ordering are mutually consistent: exactly one of <, ==, > holds -/
+theorem consistent_nosat (a b : Ep) (ha : a.dur.Canon) (hb : b.dur.Canon)
+    (hta : a.ts.nonDyn = true) (htb : b.ts.nonDyn = true) (hf : CmpFits a b) :
+    ∃ c e, Ep.cmp a b = some c ∧ Ep.eqb a b = some e ∧ (e = true ↔ c = 0) ∧ (c = -1 ∨ c = 0 ∨ c = 1) := by
+  refine ⟨_, _, Ep_cmp_spec_nosat a b ha hb hta htb hf, Ep_eqb_spec_nosat a b ha hb hta htb hf, ?_, ?_⟩
+  · unfold cmpI; simp only [decide_eq_true_eq]; grind
+  · unfold cmpI; grind
+
+/-- independent of which operand is on the left (each order performs its own conversion) -/
+theorem cmp_antisymmetric_nosat (a b : Ep) (ha : a.dur.Canon) (hb : b.dur.Canon)
+    (hta : a.ts.nonDyn = true) (htb : b.ts.nonDyn = true) (hf : CmpFits a b) (hf' : CmpFits b a) :
+    ∃ c, Ep.cmp a b = some c ∧ Ep.cmp b a = some (-c) := by
+  refine ⟨_, Ep_cmp_spec_nosat a b ha hb hta htb hf, ?_⟩
+  rw [Ep_cmp_spec_nosat b a hb ha htb hta hf']; unfold cmpI; congr 1; grind
+
+theorem eq_symmetric_nosat (a b : Ep) (ha : a.dur.Canon) (hb : b.dur.Canon)
+    (hta : a.ts.nonDyn = true) (htb : b.ts.nonDyn = true) (hf : CmpFits a b) (hf' : CmpFits b a) :
+    Ep.eqb a b = Ep.eqb b a := by
+  rw [Ep_eqb_spec_nosat a b ha hb hta htb hf, Ep_eqb_spec_nosat b a hb ha htb hta hf']
+  congr 1; simp only [decide_eq_decide]; exact eq_comm
+
+/-- transitive -/
+theorem cmp_transitive_nosat (a b c : Ep) (ha : a.dur.Canon) (hb : b.dur.Canon) (hc : c.dur.Canon)
+    (hta : a.ts.nonDyn = true) (htb : b.ts.nonDyn = true) (htc : c.ts.nonDyn = true)
+    (hab : CmpFits a b) (hbc : CmpFits b c) (hac : CmpFits a c)
+    (h1 : Ep.cmp a b = some (-1)) (h2 : Ep.cmp b c = some (-1)) : Ep.cmp a c = some (-1) := by
+  rw [Ep_cmp_spec_nosat a b ha hb hta htb hab] at h1
+  rw [Ep_cmp_spec_nosat b c hb hc htb htc hbc] at h2
+  rw [Ep_cmp_spec_nosat a c ha hc hta htc hac]
+  unfold cmpI at *; simp only [Option.some.injEq] at *; grind
+
+/-- preserved by converting an operand into any uniform scale: conversion keeps the instant -/
+theorem conversion_preserves_instant_nosat (d : Dur) (a b : TS) (hd : d.Canon) (ha : a.nonDyn = true)
+    (hb : b.isUniform = true) (hs : ConvFits a b d.val) :
+    ∃ r, (Ep.mk d a).to b = some r ∧ r.ts = b ∧ r.dur.Canon ∧ r.inst = (Ep.mk d a).inst := by
+  obtain ⟨r, r1, r2, r3⟩ := to_uniform_inst_nosat d a b hd ha hb hs
+  refine ⟨_, r1, rfl, r2, ?_⟩
+  unfold Ep.inst; simp only; rw [instV_uniform b r.val hb, r3]; omega
+
+/-- … and by converting an operand into UTC, whenever its instant has a UTC pre-image `u` (i.e. outside the
+    inserted seconds, where no UTC epoch denotes the instant: recorded finding D9b) -/
+theorem conversion_to_utc_preserves_instant (d : Dur) (a : TS) (hd : d.Canon) (ha : a.nonDyn = true) (u : Int)
+    (hu : instV .UTC u = (Ep.mk d a).inst) (hfit : a = .UTC ∨ (DMIN ≤ u ∧ (Ep.mk d a).inst ≤ DMAX)) :
+    ∃ r, (Ep.mk d a).to .UTC = some r ∧ r.ts = .UTC ∧ r.dur.Canon ∧ r.inst = (Ep.mk d a).inst := by
+  obtain ⟨r, r1, r2, r3⟩ := to_utc_inst_nosat d a hd ha u hu hfit
+  refine ⟨_, r1, rfl, r2, ?_⟩
+  show instV .UTC r.val = _
+  rw [r3]; exact hu
+
+/-- hence the whole clause "preserved by converting either operand" for the order: converting the right operand
+    into any uniform scale first does not change the answer -/
+theorem cmp_preserved_by_conversion (a b : Ep) (c : TS) (ha : a.dur.Canon) (hb : b.dur.Canon)
+    (hta : a.ts.nonDyn = true) (htb : b.ts.nonDyn = true) (hc : c.isUniform = true)
+    (hconv : ConvFits b.ts c b.dur.val) (hf : CmpFits a b) :
+    ∃ b', b.to c = some b' ∧ (CmpFits a b' → Ep.cmp a b' = Ep.cmp a b) := by
+  obtain ⟨db, tb⟩ := b
+  obtain ⟨r, r1, r2, r3, r4⟩ := conversion_preserves_instant_nosat db tb c hb htb hc hconv
+  refine ⟨r, r1, fun hf' => ?_⟩
+  have htr : r.ts.nonDyn = true := by rw [r2]; cases c <;> simp_all [TS.isUniform, TS.nonDyn]
+  rw [Ep_cmp_spec_nosat a r ha r3 hta htr hf', Ep_cmp_spec_nosat a _ ha hb hta htb hf, r4]
+
+/-- min / max return the operand whose instant is smaller / larger (either one when equal) -/
+theorem min_max_spec_nosat (a b : Ep) (ha : a.dur.Canon) (hb : b.dur.Canon)
+    (hta : a.ts.nonDyn = true) (htb : b.ts.nonDyn = true) (hf : CmpFits a b) :
+    ∃ m M, Ep.min a b = some m ∧ Ep.max a b = some M ∧
+      m.inst = (if a.inst < b.inst then a.inst else b.inst) ∧ M.inst = (if a.inst > b.inst then a.inst else b.inst) := by
+  unfold Ep.min Ep.max
+  rw [Ep_cmp_spec_nosat a b ha hb hta htb hf]
+  simp only
+  refine ⟨_, _, rfl, rfl, ?_, ?_⟩ <;> (unfold cmpI; grind)
+
+/-- the hypothesis is implied by the old one, and is strictly weaker: the epochs at the very bounds of the
+    representable range are comparable with each other in one scale, and the last representable TAI epoch is
+    comparable with epochs of scales whose zero lies later -/
+theorem CmpFits_from_Safe (a b : Ep) (hsa : Safe a.dur.val) (hsb : Safe b.dur.val) : CmpFits a b :=
+  CmpFits_of_Safe a b hsa hsb
+
+/-- without it the statement is false of the code: a saturated conversion makes distinct instants compare
+    equal (GPST's last representable epoch converted to TAI clamps onto TAI's last representable epoch) -/
+theorem saturation_counterexample :
+    Ep.eqb ⟨Dur.MAX, .TAI⟩ ⟨Dur.MAX, .GPST⟩ = some true ∧ Ep.cmp ⟨Dur.MAX, .TAI⟩ ⟨Dur.MAX, .GPST⟩ = some 0 ∧
+    (⟨Dur.MAX, .TAI⟩ : Ep).inst < (⟨Dur.MAX, .GPST⟩ : Ep).inst ∧ ¬ CmpFits ⟨Dur.MAX, .TAI⟩ ⟨Dur.MAX, .GPST⟩ := by
+  decide +kernel
+
+-- non-vacuity of the weaker hypothesis beyond `Safe`: the two ends of the range in one scale, and the last
+-- representable TAI epoch against the GPST reference epoch, in both orders (`Dur.MAX` is NOT `Safe`)
+example : CmpFits ⟨Dur.MIN, .UTC⟩ ⟨Dur.MAX, .UTC⟩ ∧ ¬ Safe (Dur.MAX).val ∧
+    CmpFits ⟨Dur.MAX, .TAI⟩ ⟨⟨0, 0⟩, .GPST⟩ ∧ CmpFits ⟨⟨0, 0⟩, .GPST⟩ ⟨Dur.MAX, .TAI⟩ := by
+  unfold Safe; decide +kernel
 
 -- non-vacuity: the pair of the repaired defect D15 (symmetric about the reference) is in the domain,
 -- and the model orders it chronologically
